@@ -1,7 +1,7 @@
 /-
 Driver: one case per line in, one canonical result line out (see /verif/PROTOCOL.md).
-`driver chk` / `driver nochk` selects whether dimension checking is compiled in; a further argument `nostd` selects the
-bodies compiled without the `std` feature (today: `Quantity::abs` is the manual `if v >= 0.0 { v } else { -v }`).
+`driver chk` / `driver nochk` selects whether dimension checking is compiled in; a further argument `nostd` names the builds
+without the `std` feature (no body differs any more since the no_std `Quantity::abs` was repaired; the argument is accepted and ignored).
 -/
 import Rrtk.Drv.Q
 import Rrtk.Drv.D
@@ -22,9 +22,9 @@ open Rrtk Rrtk.Drv
 timestamps / device relays prefer the other side / both), see tools/gen.py -/
 def runLine (chk : Bool) (nostd : Bool) (tie : Nat) (line : String) : String :=
   let toks := (line.trimAscii.toString.splitOn " ").filter (· ≠ "")
-  let toks := match nostd, toks with
-    | true, "q" :: "abs" :: rest => "q" :: "absm" :: rest
-    | _, t => t
+  -- (until the `fix:` commit 24d9cb7 the builds without `std` used a hand-written `abs` and `nostd` rewrote `q abs` to `q absm`;
+  --  since then every build clears the sign bit like `f32::abs`, and the option changes nothing)
+  let _ := nostd
   match toks with
   | [] => ""
   | "q" :: rest => runM (runQ chk rest)
